@@ -55,7 +55,8 @@ TRUSTED_BASE = [
     "Lean driver Drive/C09.lean (JSON codec) ; the repo's own parser + expand_elements produce the programs both sides run",
     "oracle harness/props/C09.py::oracle (from-scratch scan written from the property statement; the name a parked match waits for is "
     "taken from get_event_from_element on the current context, the function the dispatcher compares incoming events with)",
-    "recorder wrapper of _add_head_to_event_matching_structures (referent class / type as seen at the registration; appends only)",
+    "recorder wrapper of _add_head_to_event_matching_structures (referent class / type as seen at the registration; for an object given by name: "
+    "spec type, name, member names, whether the name is a key of state.flow_configs; appends only)",
 ]
 ASSUMPTIONS = [
     "uuid4 uids are fresh and head uids have fixed length (reverse-map key flow_uid+head_uid modelled as a pair)",
@@ -873,7 +874,10 @@ def check_snapshot(snap):
             wrong = [e for e in renamed if reg.get(tuple(e[1])) != e[0]]
             if wrong:
                 e = wrong[0]
-                bad.append(("index-name-wrong-at-registration", f"head {e[1]} is filed under {e[0]!r} but its match element names {by_key_w[tuple(e[1])]!r} "
+                names_now = by_key_w[tuple(e[1])]
+                names_txt = ("NO event (the dispatcher's get_event_from_element raises for it even without its argument expressions: a head must not stay parked there)"
+                             if names_now == "!raise" else repr(names_now))
+                bad.append(("index-name-wrong-at-registration", f"head {e[1]} is filed under {e[0]!r} but its match element names {names_txt} "
                             f"(and named {reg.get(tuple(e[1]))!r} when the head was registered there; None = never registered at this position): "
                             f"the event of that name never reaches the head"))
             else:
